@@ -52,3 +52,24 @@ add("C13", "round-trip oracle on generated tables, byte-level suffix dispatch ch
     "CSV strings are generated from a class that survives type inference (number-like strings, empty strings and "
     "nulls are a format limitation, exercised only through Parquet).",
     "DESIGN.md section 4 C13")
+
+add("C02", "reference-model oracle (map_coordinates on the full tomogram) + entry-point agreement + icontract K3 on rotated_crop",
+    "White-noise tomograms (numpy/dask, several chunkings, float32/64) with molecules interior, straddling every face, in "
+    "corners, just outside and far outside, identity/axis-aligned/random orientations, odd/even/non-cubic boxes, orders "
+    "0/1/3, scales, corner_safe on/off: every voxel whose interpolation support lies in the tomogram (whole box when "
+    "corner_safe or identity, inscribed ball otherwise) is compared with an independent sampler at "
+    "pos/scale + R(k-(shape-1)/2); exact block for the exact case; six entry points agree; all voxels finite; far-outside "
+    "windows must raise SubvolumeOutOfBoundError.",
+    "Order-3 voxels are bounded (0.06 sigma interior, 0.15 sigma within 8 voxels of a face) rather than compared exactly: "
+    "acryo prefilters the crop, the reference the whole tomogram. Between 'some overlap' and 'far outside' either outcome is "
+    "accepted but a returned array must be finite. Order-0 coordinates within 1e-3 of a rounding boundary are undecided.",
+    "DESIGN.md section 4 C02")
+
+add("C15", "metamorphic oracle (binned load == block sum of the b-times larger original load) + icontract K8 on bin_image",
+    "Single and batch loaders over numpy/dask tomograms with sides divisible or not by b in 1..6, lazy or eager binning: "
+    "the binned image equals reference block sums, scale and molecule translation follow the half-bin rule, "
+    "orientations/features and the source loader are untouched, and every sub-volume loaded from the binned loader equals "
+    "the block sum of the corresponding b-times larger sub-volume of the original loader.",
+    "Metamorphic relation is exact only for identity orientation, molecules on the binned grid and orders 0/1, which is "
+    "what the workload generates.",
+    "DESIGN.md section 4 C15")
